@@ -28,9 +28,10 @@ import Props.C11
 import Props.C12
 import Proofs.Base64
 import Proofs.Pairings
+import Proofs.RowRoundTrip
 
 namespace Jl.C13
-open Jl Jl.Value Cast
+open Jl Jl.Value Jl.JsonQuote Cast
 
 set_option linter.unusedSimpArgs false
 
@@ -144,5 +145,39 @@ theorem binary_bytes (ext : Ext) (b : Bytes) :
      importCell ⟨genTables, ext⟩ .binary .none (.str (Base64.encode b)) =
        .ok (.cell (.bytes b) .binary .none, none)) :=
   Pairings.binary_bytes ext b
+
+/-! ### The whole route: Go value -> row -> JSON line -> row -> raw value (`Proofs/RowRoundTrip`) -/
+
+/-- C13 on the route the property names, for the 69 pairings covered outright: a one-column template
+    of the pairing, the row created from the Go value, the line `Export` writes, and the row `GetRow`
+    reads from that line through the same template — for every key the reader delivers unchanged and
+    every value of the column's Go type (or nil) in the property's domain, the route succeeds and the
+    raw value read back is the same value of the same Go type. -/
+theorem line_route_lossless (ext : Ext) (key : Bytes) (hk : sanitize key = key)
+    (f : Format) (ty : Ty) (hc : (f, ty) ∈ RowRoundTrip.covered) (v : Dyn)
+    (hty : v = .nil ∨ typeOf v = RowRoundTrip.valueTy f ty)
+    (hd : Tables.inDomain f ty v = true) :
+    Tables.lossless f ty = true ∧
+    ∃ v', RowRoundTrip.LineRoute ⟨genTables, ext⟩ key f ty v v' ∧ Tables.sameValue v v' = true :=
+  ⟨(RowRoundTrip.row_lossless_covered ext key hk f ty hc v hty hd).1,
+   RowRoundTrip.line_lossless_covered ext key hk f ty hc v hty hd⟩
+
+/-- The five pairings that go through the process zone or ParseFloat, given answers of the
+    standard-library parameter: numeric / timestamp / binary x time.Time, numeric / timestamp x bool. -/
+theorem row_route_lossless_ext (ext : Ext) (hzone : ∀ s, ∃ off, ext.zoneOffset s = some off)
+    (law : Pairings.DigitLaw ext) (key : Bytes) (hk : sanitize key = key)
+    (f : Format) (ty : Ty) (hc : (f, ty) ∈ RowRoundTrip.coveredExt) (v : Dyn)
+    (hty : v = .nil ∨ typeOf v = RowRoundTrip.valueTy f ty)
+    (hd : Tables.inDomain f ty v = true) :
+    Tables.lossless f ty = true ∧ RowRoundTrip.RowLossless ⟨genTables, ext⟩ key f ty v :=
+  RowRoundTrip.row_lossless_coveredExt ext hzone law key hk f ty hc v hty hd
+
+/-- Why the domain of string x json.Number asks for well-formed UTF-8: the literal FF goes out as
+    "\ufffd" and comes back as U+FFFD, on the whole route, for every `ext`. -/
+theorem string_number_needs_utf8 (ext : Ext) (key : Bytes) (hk : sanitize key = key) :
+    RowRoundTrip.Route ⟨genTables, ext⟩ key .string .num (.num [0xFF]) (.num [0xEF, 0xBF, 0xBD]) ∧
+    Tables.inDomain .string .num (.num [0xFF]) = false :=
+  ⟨(RowRoundTrip.string_num_not_lossless ext key hk).2.2.1, by
+    simp [Tables.inDomain, Utf8.valid, Utf8.seqLen, JsonWrite.isValidNumber]⟩
 
 end Jl.C13
